@@ -9,13 +9,14 @@ from .common import AT4_API, AT5_API, HEARTBEAT, SOCKET, SOCK_CLS, fn_of, sock_f
 
 LEVEL = "other"
 EXPLANATION = (
-    "Static analysis of AirTouchSocket.close/_connect/open_socket, HeartbeatManager.start/stop and AirTouch4/5.init/shutdown: R1 close() "
-    "marks the socket not-open before its first await and awaits _disconnect() on every path; R2 nothing acts after close - close() "
-    "cancels every background task (idiom A) and _connect refuses to run on a closed socket (idiom B guard) and the in-flight flag is "
-    "released on cancellation; R3 every create_task whose handle is stored has a cancel-and-await reachable from shutdown(), and "
-    "shutdown() stops the heartbeat BEFORE closing the socket, closes the socket, clears the initialised event and the model, sets CLOSED, "
-    "none behind an early exit; R4 sending on a closed socket raises NotOpenError (C16.R3 re-used); R5 re-init: init() unconditionally sets "
-    "CONNECTING, subscribes both callbacks (set-based, idempotent) and opens the socket; stop() empties the task list so start() works again; messages still queued at close() are discarded."
+    'Static analysis of AirTouchSocket.close/_connect/open_socket, HeartbeatManager.start/stop and AirTouch4/5.init/shutdown: R1 close() marks the socket '
+    'not-open before its first await and awaits _disconnect() on every path; R2 nothing acts after close - close() cancels every background task (idiom A) '
+    'and _connect refuses to run on a closed socket (idiom B guard) and the in-flight flag is released on cancellation, and no timer outside the tracked '
+    'background tasks is armed (no call_later/call_at); R3 every create_task whose handle is stored has a cancel-and-await reachable from shutdown(), and '
+    'shutdown() stops the heartbeat BEFORE closing the socket, closes the socket, clears the initialised event and the model, sets CLOSED, none behind an '
+    'early exit; R4 sending on a closed socket raises NotOpenError (C16.R3 re-used); R5 re-init: init() unconditionally sets CONNECTING, subscribes both '
+    'callbacks (set-based, idempotent) and opens the socket; stop() empties the task list so start() works again; messages still queued at close() are '
+    'discarded.'
 )
 ASSUMPTIONS = ["Task.cancel() delivers CancelledError at the task's current await", "asyncio.current_task() identifies the caller so close() does not cancel itself"]
 FLOORS = {"C15.R1": 3, "C15.R2": 4, "C15.R3": 14, "C15.R4": 1, "C15.R5": 9}
